@@ -15,7 +15,17 @@ let st : state option ref = ref None
 let display : (int, int) Hashtbl.t = Hashtbl.create 64
 let diverged = ref false   (* implementation and model already differ in this case: state-dependent specs are meaningless *)
 
+(* C12 runtime spec: transmissions of the implementation per occupied slot (server, identifier) *)
+type txrec = { tx_bytes : string; mutable tx_times : int list; mutable tx_resets : int; mutable tx_after_reset : bool }
+let txhist : (int * int, txrec) Hashtbl.t = Hashtbl.create 64
+
+(* implementation state per server as dumped after the previous operation *)
+type isl = { i_id : int; i_tries : int; i_exp : int; i_h : string }
+let impl_prev : (int, int * int * isl list) Hashtbl.t = Hashtbl.create 8
+let pending_reset : (int, unit) Hashtbl.t = Hashtbl.create 8
+
 let reset () =
+  Hashtbl.reset txhist; Hashtbl.reset impl_prev; Hashtbl.reset pending_reset;
   options := opt_default; clients := []; servers := []; realms := []; st := None; Hashtbl.reset display; diverged := false
 
 let b01 s = (s = "1")
@@ -190,6 +200,31 @@ let rw_touches_hidden (rw : rewrite option) : bool =
 let impl_events (impl_all : string list list) (kind : string) : string list list =
   List.filter_map (function k :: rest when k = kind -> Some rest | _ -> None) impl_all
 
+let note_enq impl_all =
+  List.iter (function [ sv; id; p ] ->
+      Hashtbl.replace txhist (int_of_string sv, int_of_string id) { tx_bytes = p; tx_times = []; tx_resets = 0; tx_after_reset = false }
+    | _ -> ()) (impl_events impl_all "enq")
+
+(* every transmission the implementation makes: at most RetryCount+1 per request (a probe: 1), one more for
+   each connection reset in between, and no closer than RetryInterval to the previous one unless a reset intervened *)
+let check_tx opidx impl_all now =
+  List.iter (function [ sv; id; p ] ->
+      let srv = int_of_string sv in
+      (match Hashtbl.find_opt txhist (srv, int_of_string id), List.assoc_opt srv !servers with
+       | Some r, Some sc when r.tx_bytes = p ->
+           let isprobe = String.length p >= 2 && String.sub p 0 2 = "0c" in
+           let limit = if isprobe then 1 else int_of_n sc.sc_retrycount + 1 in
+           (match r.tx_times with
+            | last :: _ when not r.tx_after_reset ->
+                spec opidx "C12_spacing" (now >= last + int_of_n sc.sc_retryint)
+                  (Printf.sprintf "server %d id %s sent at %d and %d, RetryInterval %d" srv id last now (int_of_n sc.sc_retryint))
+            | _ -> ());
+           r.tx_times <- now :: r.tx_times; r.tx_after_reset <- false;
+           spec opidx "C12_count" (List.length r.tx_times <= limit + r.tx_resets)
+             (Printf.sprintf "server %d id %s transmitted %d times, limit %d (+%d resets)" srv id (List.length r.tx_times) limit r.tx_resets)
+       | _ -> ())
+    | _ -> ()) (impl_events impl_all "tx")
+
 let op_cpkt opidx impl_all toks =
   match toks with
   | [ c; now; rnd; pkt ] ->
@@ -200,6 +235,7 @@ let op_cpkt opidx impl_all toks =
        let reqid = match b with _ :: i :: _ -> int_of_n i | _ -> -1 in
        List.iter (function [ cl; p ] -> check_reply_out opidx (int_of_string cl) (bytes_of_hex p) reqauth reqid | _ -> ()) (impl_events impl_all "reply");
        List.iter (function [ sv; _; p ] -> check_request_out opidx (int_of_string sv) (bytes_of_hex p) | _ -> ()) (impl_events impl_all "enq"));
+      note_enq impl_all;
       let rq = { rq_created = z_of_int (int_of_string now); rq_refcount = n_of_int 1; rq_buf = Some (bytes_of_hex pkt); rq_replybuf = None;
                  rq_msg = None; rq_from = Some (nat_of_int c); rq_to = None; rq_origuser = None; rq_rqid = N0;
                  rq_rqauth = repeat N0 16; rq_newid = N0 } in
@@ -293,10 +329,60 @@ let op_sreply opidx impl_all toks =
       do_reply opidx impl_all s srv (int_of_string now) (bytes_of_hex rnd) pl
   | _ -> ()
 
+let parse_impl_srv (toks : string list) : (int * (int * int * isl list)) option =
+  match toks with
+  | sv :: rest ->
+      let k = kv rest in
+      let slots = List.filter_map (fun e -> match String.split_on_char ':' e with
+          | id :: tries :: exp :: h :: _ -> Some { i_id = int_of_string id; i_tries = int_of_string tries; i_exp = int_of_string exp; i_h = h }
+          | _ -> None) (String.split_on_char ',' (get k "slots" "")) in
+      (try Some (int_of_string sv, (int_of_string (get k "lost" "0"), int_of_string (get k "mode" "0"), slots)) with _ -> None)
+  | [] -> None
+
+let remember_impl impl_all =
+  List.iter (fun t -> match parse_impl_srv t with Some (sv, x) -> Hashtbl.replace impl_prev sv x | None -> ()) (impl_events impl_all "srv")
+
+(* what one pass of the implementation's writer did to its own table: loss accounting per status-server mode,
+   and re-transmission of everything outstanding after a connection reset (C12) *)
+let check_writer_pass opidx impl_all srv putfail =
+  let post = List.find_map (fun t -> match parse_impl_srv t with Some (sv, x) when sv = srv -> Some x | _ -> None) (impl_events impl_all "srv") in
+  let reset = Hashtbl.mem pending_reset srv in
+  Hashtbl.remove pending_reset srv;
+  match Hashtbl.find_opt impl_prev srv, post, List.assoc_opt srv !servers with
+  | Some (lost0, mode0, pre), Some (lost1, _, post), Some _ when not putfail ->
+      let is_probe id = match Hashtbl.find_opt txhist (srv, id) with
+        | Some r -> String.length r.tx_bytes >= 2 && String.sub r.tx_bytes 0 2 = "0c" | None -> false in
+      let still sl = List.exists (fun q -> q.i_id = sl.i_id && q.i_h = sl.i_h) post in
+      let gone = List.filter (fun sl -> not (still sl)) pre in
+      let delta = List.fold_left (fun a sl ->
+          let pb = is_probe sl.i_id in
+          a + (if reset && pb then 0
+               else if mode0 = 1 || mode0 = 2 then (if pb then 1 else 0)
+               else if pb && mode0 = 3 then 0 else 1)) 0 gone in
+      let maxl = int_of_n Consts.coq_MAX_LOSTRQS in
+      spec opidx "C12_lost" (lost1 = min (lost0 + delta) (max maxl lost0))
+        (Printf.sprintf "server %d mode %d: %d request(s) abandoned, unanswered count %d -> %d" srv mode0 (List.length gone) lost0 lost1);
+      if reset then begin
+        let txids = List.filter_map (function [ sv; id; _ ] when int_of_string sv = srv -> Some (int_of_string id) | _ -> None) (impl_events impl_all "tx") in
+        List.iter (fun sl ->
+            if is_probe sl.i_id then
+              spec opidx "C12_reset_discards_probe" (not (still sl)) (Printf.sprintf "server %d id %d" srv sl.i_id)
+            else begin
+              let q = List.find_opt (fun q -> q.i_id = sl.i_id && q.i_h = sl.i_h) post in
+              spec opidx "C12_reset_resends" (List.mem sl.i_id txids && (match q with Some q -> q.i_tries = max sl.i_tries 1 | None -> false))
+                (Printf.sprintf "server %d id %d tries before %d after %s, retransmitted=%b" srv sl.i_id sl.i_tries
+                   (match q with Some q -> string_of_int q.i_tries | None -> "released") (List.mem sl.i_id txids))
+            end) pre
+      end
+  | _ -> ()
+
 let op_wpass opidx impl_all toks =
   match toks with
   | srv :: now :: rnd :: rest ->
       let s = get_state () in
+      check_writer_pass opidx impl_all (int_of_string srv) (rest = [ "putfail" ]);
+      note_enq impl_all;
+      check_tx opidx impl_all (int_of_string now);
       List.iter (function [ sv; _; p ] -> check_request_out opidx (int_of_string sv) (bytes_of_hex p) | _ -> ()) (impl_events impl_all "tx");
       List.iter (function [ sv; _; p ] -> check_request_out opidx (int_of_string sv) (bytes_of_hex p) | _ -> ()) (impl_events impl_all "enq");
       let putfail = (rest = [ "putfail" ]) in
@@ -322,6 +408,8 @@ let op_reconnect opidx toks =
       let s = get_state () in
       let i = nat_of_int (int_of_string srv) in
       let sv = get_server s i in
+      Hashtbl.replace pending_reset (int_of_string srv) ();
+      Hashtbl.iter (fun (sv', _) r -> if sv' = int_of_string srv then (r.tx_resets <- r.tx_resets + 1; r.tx_after_reset <- true)) txhist;
       let s = set_server s i { sv with s_conreset = true } in
       st := Some s; print_state opidx s
   | _ -> ()
@@ -336,7 +424,7 @@ let op_srvset opidx toks =
       st := Some s; print_state opidx s
   | _ -> ()
 
-let run (opidx : int) (impl_all : string list list) (toks : string list) : bool =
+let run_op (opidx : int) (impl_all : string list list) (toks : string list) : bool =
   match toks with
   | "cpkt" :: r -> op_cpkt opidx impl_all r; true
   | "spkt" :: r -> op_spkt opidx impl_all r; true
@@ -346,3 +434,7 @@ let run (opidx : int) (impl_all : string list list) (toks : string list) : bool 
   | "reconnect" :: r -> op_reconnect opidx r; true
   | "srvset" :: r -> op_srvset opidx r; true
   | _ -> false
+
+let run (opidx : int) (impl_all : string list list) (toks : string list) : bool =
+  let r = run_op opidx impl_all toks in
+  remember_impl impl_all; r
